@@ -23,7 +23,7 @@ pub const ASSUMPTIONS: &[&str] = &[
 pub const KF_PARAMETRIZE_NO_INDIRECT: &str = "KF-C18-parametrize-without-indirect-offers-fixtures";
 
 pub fn cfg() -> GenCfg {
-    GenCfg { names: 4, max_depth: 3, max_items: 4, allow_dups_in_file: false, defaulted_params: true, ..GenCfg::default() }
+    GenCfg { names: 4, max_depth: 3, max_items: 4, allow_dups_in_file: false, defaulted_params: true, test_named_fixtures: true, ..GenCfg::default() }
 }
 
 #[derive(Clone, Debug, serde::Serialize, serde::Deserialize)]
